@@ -214,6 +214,30 @@ def e2e_part(ck: Check, rnd):
                     t["data"] = dict(t["data"], value_defects=vd, accel_defects=ad)
                     if len(ck.cov["samples"]) < 4:
                         ck.sample({"case": label, "value_defects_r=0.01..0.08": vd, "accel_defects": ad})
+    # history on the OBJECT API: the Hamiltonian system served for the "physical" form after another form was requested for the
+    # same point and degree must carry the equations of the physical polynomial built above
+    sname, system = systems[0]
+    L = system.get_libration_point(1)
+    N = 4
+    psi, clmo = _init_index_tables(N)
+    enc = _create_encode_dict_from_clmo(clmo)
+    Jref = _polynomial_jacobian(_build_physical_hamiltonian_collinear(L, N), N, psi, clmo, enc)
+    t = cs.trace(f"{sname}|L1|N={N}|object hamiltonian_system after another form", {"object_hamsys_matches_builder": -110},
+                 {"system": sname, "idx": 1, "N": N, "dir": "object-history"})
+    ck.count(("taylor-object-history", sname), True)
+    try:
+        L.hamiltonian_system("center_manifold_real", N)
+        hs = L.hamiltonian_system("physical", N)
+        worst = 0.0
+        for r in (0.02, 0.05):
+            z = r * dirs["generic"] / np.linalg.norm(dirs["generic"])
+            ref, _ = hamilton_accel(Jref, z, clmo)
+            got, _ = hamilton_accel(hs.jac_H, z, hs.clmo_H)
+            worst = max(worst, float(np.max(np.abs(ref - got))))
+        cs.obs(t, "object_hamsys_matches_builder", worst)
+    except Exception as ex:
+        ck.violation("point.hamiltonian_system|raises", f"{sname} L1 N={N}: {ex!r}"[:300], {"system": sname})
+        cs.traces.remove(t)
     cs.decide(key_fn=lambda t, n: f"physical-hamiltonian|L{t['data']['idx']}|{n}")
     cs.selftest()
 
